@@ -404,6 +404,130 @@ func raceBody(sets [][]do, withTimeout bool) func() {
 	}
 }
 
+// two tokens wait in the same task at once (a parallel fork whose two branches both lead into
+// it): each request is decided by its own answer. "together": the two requests are answered
+// with different declared results (x / y) back-to-back or concurrently - both are stored and
+// both tokens go on. "deferred": request 1 is answered with an error whose handler decides
+// later; meanwhile request 2 is answered with x="fromB" and a later task writes x="later"; then
+// the handler says skip: the skipped answer stores nothing, x stays "later".
+func twoTokens(variant string) func() {
+	g := drv.NewGraph("c08two_" + variant)
+	s, f, w, a, e := g.Add(drv.Start, "start"), g.Add(drv.AND, "F"), g.Add(drv.Task, "work"), g.Add(drv.Task, "after"), g.Add(drv.End, "end")
+	w.Tag, a.Tag = "serviceTask", "serviceTask"
+	w.Results, w.RTypes = []string{"x", "y"}, []string{"string", "string"}
+	a.Results, a.RTypes = []string{"x"}, []string{"string"}
+	g.Link(s, f, nil)
+	g.Link(f, w, nil)
+	g.Link(f, w, nil)
+	g.Link(w, a, nil)
+	g.Link(a, e, nil)
+	defs := g.Parse()
+	return func() {
+		fail := func(clause, format string, a ...any) {
+			h.Fail("C08/two-tokens/"+clause, "%s: %s", variant, fmt.Sprintf(format, a...))
+		}
+		r := drv.Open(g, defs, drv.OpenOpts{})
+		var w8 *drv.Wait
+		r.AfterStart = func() { w8 = r.WaitComplete(nil) }
+		r.StartAll()
+		verifrt.WaitIdle()
+		var reqs []*drv.PTask
+		for _, t := range r.Tasks {
+			if t.ID == "work" {
+				reqs = append(reqs, t)
+			}
+		}
+		if len(reqs) != 2 {
+			fail("requested", "the task reached by two tokens was requested %d times, want 2", len(reqs))
+			return
+		}
+		returned := 0
+		answerAfter := func() bool {
+			for n := 0; n < 4; n++ {
+				p := r.Pending("after")
+				if p == nil {
+					return true
+				}
+				r.Answer(p, bpmn.DoWithResults(map[string]any{"x": "later"}))
+				verifrt.WaitIdle()
+			}
+			return r.Pending("after") == nil
+		}
+		switch variant {
+		case "together-seq", "together-concurrent":
+			reqs[0].Answered, reqs[1].Answered = true, true
+			if variant == "together-seq" {
+				go func() {
+					reqs[0].T.Do(bpmn.DoWithResults(map[string]any{"x": "one"}))
+					returned++
+					reqs[1].T.Do(bpmn.DoWithResults(map[string]any{"y": "two"}))
+					returned++
+				}()
+			} else {
+				go func() { reqs[0].T.Do(bpmn.DoWithResults(map[string]any{"x": "one"})); returned++ }()
+				go func() { reqs[1].T.Do(bpmn.DoWithResults(map[string]any{"y": "two"})); returned++ }()
+			}
+			verifrt.WaitIdle()
+			if returned != 2 {
+				fail("do-returns", "%d of 2 Do calls returned", returned)
+				return
+			}
+			vars := r.Vars()
+			if vars["x"] != "one" || vars["y"] != "two" {
+				fail("each-answer-stored", "request 1 answered x=one, request 2 answered y=two: variables are x=%v y=%v", vars["x"], vars["y"])
+				return
+			}
+			if n := r.Requests("after"); n != 2 {
+				fail("both-continue", "both tokens were answered: the next task was requested %d times, want 2", n)
+				return
+			}
+		case "deferred":
+			hch := make(chan bpmn.ErrHandler, 1)
+			reqs[0].Answered, reqs[1].Answered = true, true
+			go func() {
+				reqs[0].T.Do(bpmn.DoWithErrHandle(errors.New("boom"), hch))
+				returned++
+			}()
+			verifrt.WaitIdle()
+			go func() { reqs[1].T.Do(bpmn.DoWithResults(map[string]any{"x": "fromB"})); returned++ }()
+			verifrt.WaitIdle()
+			if r.Vars()["x"] != "fromB" {
+				fail("each-answer-stored", "request 2 answered x=fromB: x=%v", r.Vars()["x"])
+				return
+			}
+			// token 2 is at the next task: its answer writes x="later"
+			p := r.Pending("after")
+			if p == nil {
+				fail("both-continue", "token 2 was answered but the next task is not requested")
+				return
+			}
+			r.Answer(p, bpmn.DoWithResults(map[string]any{"x": "later"}))
+			verifrt.WaitIdle()
+			hch <- bpmn.ErrHandler{Mode: bpmn.SkipMode}
+			verifrt.WaitIdle()
+			if returned != 2 {
+				fail("do-returns", "%d of 2 Do calls returned", returned)
+				return
+			}
+			if got := r.Vars()["x"]; got != "later" {
+				fail("skipped-answer-stores-nothing", "request 1 was answered with an error and skipped after x had been written twice: x=%v, want later", got)
+				return
+			}
+			if n := r.Requests("after"); n != 2 {
+				fail("both-continue", "after the skip the next task was requested %d times in total, want 2", n)
+				return
+			}
+		}
+		if !answerAfter() {
+			fail("both-continue", "requests of the next task keep coming")
+			return
+		}
+		if w8 == nil || !w8.Returned || !w8.Result {
+			fail("completes", "both tokens are through but the instance has not completed")
+		}
+	}
+}
+
 func init() {
 	h.Register("C08", func(tier string) ([]*h.Scn, []*h.Plain) {
 		var out []*h.Scn
@@ -453,6 +577,20 @@ func init() {
 		if thorough {
 			add("all", all, 1, 16)
 			add("concurrent", conc, 2, 16)
+		}
+		for _, v := range []string{"together-seq", "together-concurrent", "deferred"} {
+			bounds := []int{0, 1}
+			if thorough {
+				bounds = append(bounds, 2)
+			}
+			for _, d := range bounds {
+				sc := &h.Scn{Name: fmt.Sprintf("C08/two-tokens/%s/d%d", v, d), Body: twoTokens(v), Opts: verifrt.Options{Bound: d, UseCache: true}}
+				sc.Weight = 5 * (1 + 1000*d*d)
+				if d >= 1 {
+					sc.Split = 4 * d
+				}
+				out = append(out, sc)
+			}
 		}
 		sets := [][]do{
 			{{Kind: "ok", R: true}, {Kind: "ok", R: false}},
